@@ -178,7 +178,7 @@ func genProducer(c *cf.Case, r *cf.Rng, prop string) {
 		cfg.Partitioner = r.PickS("manual", "roundrobin", "hash")
 	case "C17":
 		faultMax = 2
-		cfg.Partitioner = r.PickS("manual", "hash", "random", "roundrobin", "refhash", "customhash", "custom-absfirst", "custom-hashfn", "custom-fallback", "bad", "hash", "refhash")
+		cfg.Partitioner = r.PickS("manual", "hash", "random", "roundrobin", "refhash", "customhash", "custom-absfirst", "custom-hashfn", "custom-fallback", "bad", "hash", "refhash", "customhash-slow", "custom-hashfn-slow")
 	case "C18":
 		cfg.Interceptors = r.Range(1, 3)
 		if r.Intn(3) == 0 {
